@@ -49,7 +49,19 @@ def default_action(ph):
     return Action("reply", ACCEPT[phase_kind(ph)], 0)
 
 
+# replies whose "code" does not start with a digit: no reply class can be read from them, so whatever the client
+# makes of them it is not an acceptance (codes GARBAGE_BASE + k stand for GARBAGE[k])
+GARBAGE_BASE = 9990
+GARBAGE = [b" 55", b"-ER", b"!!!", b"/50", b"+OK", b"a50", b"\xff50", b":50", b"   "]
+
+
+def is_garbage(code):
+    return code is not None and code >= GARBAGE_BASE
+
+
 def code_class(code):
+    if is_garbage(code):
+        return "garbage"
     return "%dxx" % (code // 100)
 
 
@@ -150,6 +162,9 @@ def allowed_from(delivered, lost, n):
         temp = (any(c is not None and 400 <= c < 500 for c in chain) or (g is not None and g != 220)
                 or (h is not None and h != 250) or lost)
         s = set()
+        if any(is_garbage(c) for c in chain + [g, h]):
+            out.append({"D", "Z"})          # never success; the documents do not say which failure
+            continue
         if ok:
             s.add("K")
         if has5:
